@@ -737,11 +737,10 @@ fn get_field_decorators(
                 None
             }
         })
-        .filter_map(|list: MetaList| match list.path.get_ident() {
-            Some(ident) if languages.contains(&ident.try_into().unwrap()) => {
-                Some((ident.try_into().unwrap(), list))
-            }
-            _ => None,
+        .filter_map(|list: MetaList| {
+            // Lists that do not name a language, e.g. `#[typeshare(foo(bar))]`, are not decorators.
+            let language: SupportedLanguage = list.path.get_ident()?.try_into().ok()?;
+            languages.contains(&language).then_some((language, list))
         })
         .map(|(language, list): (SupportedLanguage, MetaList)| {
             (
